@@ -61,7 +61,7 @@ def check_box(boxed, v, conn, consts, exp, problems):
                 problems.append("reference not entered in the local object table")
 
 
-def ob_decision(run, interp, depth):
+def ob_decision(run, interp, depth, arity=2):
     from rpyc.core.protocol import Connection
     from rpyc.core import consts, netref
 
@@ -81,7 +81,7 @@ def ob_decision(run, interp, depth):
             elif special == 2:
                 v = (other._netref_factory(("builtins.dict", 3, 4)), None)
             else:
-                v = P.gen_value(c, depth, 2, with_nonplain=True)
+                v = P.gen_value(c, depth, arity, with_nonplain=True)
             c.notes.update(conn=conn, other=other, v=v)
             try:
                 return interp.call(Connection._box, (conn, v))
@@ -127,7 +127,7 @@ def ob_decision(run, interp, depth):
                     return
                 run.replay(o, sig, "%s for %s" % (bad, expr[:150]), replay_box(expr))
 
-        n_, incomplete = par_explore(run, o, harness, on_path, acc, split_depth=4, max_paths=3000000 if depth >= 2 else 200000)
+        n_, incomplete = par_explore(run, o, harness, on_path, acc, split_depth=4, max_paths=3000000 if (depth >= 2 or arity >= 3) else 200000)
         o.paths = dict(acc.counts, total=n_)
         if incomplete:
             o.verdict = "inconclusive"
@@ -353,7 +353,10 @@ def main():
     run.assumptions = ["O2/O3 are exhaustive enumeration / direct execution on real connections (no solver variables); O1 is decided symbolically",
                        "pickle is the copy contract of obtain/deliver"]
     run.obligation("O1_box_decision", "_box sends exactly the plain immutable values by value (type-exact), tuples member-wise, own proxies as local refs, everything else by reference",
-                   ob_decision(run, interp, 2 if thorough else 1))
+                   ob_decision(run, interp, 1, 3 if thorough else 2))
+    if thorough:
+        # nesting 2 with arity 2 is several million paths: widen (arity 3) and deepen (nesting 2, one element per container) separately
+        run.obligation("O1_box_decision_deep", "the same for nesting depth 2 (containers of one element)", ob_decision(run, interp, 2, 1))
     run.obligation("O2_identity", "echoed references are the original object, re-received objects are the same proxy, mutation through a proxy reaches the owner",
                    ob_identity(run, 5 if thorough else 4))
     run.obligation("O3_obtain_deliver", "obtain / deliver yield equal, independent copies", ob_obtain(run))
